@@ -38,6 +38,19 @@ def _is_bool_array_index(index):
     return len(index) == 1 and np.issubdtype(np.asarray(index[0]).dtype, np.bool_)
 
 
+def _own(ind):
+    """Returns a copy of an array-like (mutable) entry of an index; other entries as they are."""
+    if isinstance(ind, np.ndarray) or hasattr(ind, "__array_ufunc__"):
+        # (a tensor stays a tensor: numpy must interpret the copy as it did the original)
+        return ind.copy()
+    if isinstance(ind, list):
+        return deepcopy(ind)
+    if isinstance(ind, slice):
+        # the bounds of a slice can be integer-valued 0D arrays/tensors
+        return slice(_own(ind.start), _own(ind.stop), _own(ind.step))
+    return ind
+
+
 def _own_index(index):
     """Returns `index` as a tuple whose array-like (mutable) entries are copies, so that
     later changes to an index-array do not change what is back-propagated through.
@@ -51,15 +64,7 @@ def _own_index(index):
     Tuple[Any, ...]"""
     if not isinstance(index, tuple):
         index = (index,)
-    return tuple(
-        (
-            # (a tensor stays a tensor: numpy must interpret the copy as it did the original)
-            ind.copy()
-            if isinstance(ind, np.ndarray) or hasattr(ind, "__array_ufunc__")
-            else (deepcopy(ind) if isinstance(ind, list) else ind)
-        )
-        for ind in index
-    )
+    return tuple(_own(ind) for ind in index)
 
 
 class GetItem(Operation):
